@@ -3,6 +3,7 @@
     [ser], [parse_obj], [member] are the serialiser / reader of primitives (Section functions of the model,
     quantified here); their round trip is an explicit premise where it is needed (it is property C04). *)
 From PdfV Require Import Base.Prelude Storage.Prim Storage.Model Storage.Proofs Storage.Syntax Storage.Run Storage.Tables.
+From PdfV Require Syn.Serialize.
 
 (** Before any save, every read through the same open document already reflects each write: the reference
     handed back names the caller's object (same number — also for objects stored in object streams), reads of
@@ -70,7 +71,7 @@ Theorem C09_save_layout : forall ser s tr s' tr',
   (exists xpos aw bw data xd xs,
      write_stream (refs s') (lenN (refs s')) = Ok (aw, bw, data) /\
      nthN (refs s') (lenN (refs s1)) = Some (XRaw xpos 0) /\
-     ser (PStream xd (SPending data)) = Ok xs /\
+     ser (PStreamData xd data) = Ok xs /\
      (exists pre, backend s' = pre ++ obj_header (lenN (refs s1)) 0 ++ xs ++ kw_endobj_nl ++ startxref_tail xpos /\
                   lenN pre = start s + xpos)) /\
   start s' = start s /\ cache s' = [].
@@ -127,9 +128,9 @@ Theorem C09_wf_preserved : forall s,
   (forall old v s' r, update s old v = Ok (s', r) -> wf_st s').
 Proof.
   intros s H. split; [|split].
-  - intros v s' r E. exact (create_wf ser_prim s v s' r H E).
+  - intros v s' r E. exact (create_wf Serialize.ser s v s' r H E).
   - intros s' r E. exact (promise_wf s s' r H E).
-  - intros old v s' r E. first [exact (update_wf s old v s' r H E)|exact (update_wf ser_prim s old v s' r H E)].
+  - intros old v s' r E. first [exact (update_wf s old v s' r H E)|exact (update_wf Serialize.ser s old v s' r H E)].
 Qed.
 Print Assumptions C09_wf_preserved.
 
@@ -158,13 +159,13 @@ Proof.
   split; [intros i [H|[]]; subst; reflexivity|discriminate].
 Qed.
 Example C09_example_save :
-  match save ser_prim C09_example_state (mkTrailer 0 None (1, 0) None []) with
+  match save Serialize.ser C09_example_state (mkTrailer 0 None (1, 0) None []) with
   | Ok (s', _, None) => resolve parse_obj member_c (mkSt (refs s') [] (backend s') 0 [] false) (1, 5) = Ok (PDict [([65], PInt 7)])
   | _ => False
   end.
 Proof. vm_compute. reflexivity. Qed.
 Example C09_example_failed_save :
-  match save ser_prim (mkSt (refs C09_example_state) [(1, (PStream [] (SInFile 0 1), 0))] (backend C09_example_state) 0 [] false)
+  match save Serialize.ser (mkSt (refs C09_example_state) [(1, (PStream [] 1 0 0 1, 0))] (backend C09_example_state) 0 [] false)
              (mkTrailer 0 None (1, 0) None []) with
   | Ok (_, _, Some _) => True
   | _ => False
